@@ -139,7 +139,12 @@ def _case(args):
             cname, dname, toggles = arg
             date = dates_for(b).get(dname)
             if date is None: out["status"] = "skip"; return out
-            sim = ModelingUpdate(change_lists(b, spec)[cname][0](b), date)
+            try:
+                sim = ModelingUpdate(change_lists(b, spec)[cname][0](b), date)
+            except Exception as ex:
+                if H.is_float_cancellation_rejection(ex): raise
+                # the simulation could not be created: C05 / C06 territory; here only the graph left behind matters
+                out["fails"] = [f"simulation-raises:{type(ex).__name__}"] + check_gc(b.system); out["status"] = "fails"; return out
             for t in toggles:
                 (sim.set_updated_values if t == "S" else sim.reset_values)()
             if sim.updated_values_set: sim.reset_values()
